@@ -430,7 +430,8 @@ func runBARRIER(c *Ctx) {
 		if enq != nil {
 			c.Violation(F, P.InstrPos(r), "return while queued writes are in flight", "flush returns (with an error) after handing nodes to the store queue ("+P.InstrPos(enq)+") without waiting for the writers: Persist.Store calls are still running when MakeRoot has returned, so nodes it already marked persisted are not in the store yet and a retry can report success before they are")
 		} else {
-			c.Note("error return at %s after the dispatcher was started, before anything is queued, is not preceded by close+Wait: the dispatcher goroutine leaks (not a property violation)", P.InstrPos(r))
+			c.Violation(F, P.InstrPos(r), "return after the writers were started without stopping them",
+				"flush returns after it has started the dispatcher goroutine and before it closed the queue and waited: nothing ever stops that goroutine, every such call (e.g. a MakeRoot refused because KeysLike/ValuesLike is missing) leaves one blocked for ever")
 		}
 	}
 	if qkey == "" {
